@@ -547,11 +547,16 @@ impl SimThread {
         }
     }
 
-    pub fn spawn(&mut self, f: Box<dyn FnOnce() + Send + 'static>) {
+    pub fn thread_finished(&mut self, id: usize) -> bool {
+        let k = self.lock();
+        k.aborting || k.th.get(id).map(|t| t.state == ThState::Finished).unwrap_or(true)
+    }
+
+    pub fn spawn(&mut self, f: Box<dyn FnOnce() + Send + 'static>) -> Option<usize> {
         let shared = self.shared.clone();
         let mut k = match self.enter(true) {
             Some(k) => k,
-            None => return,
+            None => return None,
         };
         let child = k.th.len();
         let spawn_idx = k.spawns;
@@ -618,6 +623,7 @@ impl SimThread {
             .spawn(move || run_thread(st, f))
             .expect("spawn OS thread");
         k.os_threads.push(handle);
+        Some(child)
     }
 }
 
